@@ -76,6 +76,7 @@ class Path:
         self.ret = TOP
         self.end = None  # 'return' | 'panic' | 'diverge' | 'limit'
         self.blocks = []
+        self.mstate = {}
 
 
 class Interp:
@@ -93,12 +94,25 @@ class Interp:
         self.inline = inline
         self.depth = depth
         self.max_depth = max_depth
+        self.init_state = {}
+        self.mstate = {}   # model state of the path being executed (oracles may read and update it)
+
+    def freeze(self, env, v, depth=0):
+        """values crossing a frame boundary: references into the caller's locals are replaced by the
+        values they point to (the callee cannot write through them; mutation is modelled by oracles)"""
+        if depth > 6:
+            return TOP
+        if isinstance(v, Ref):
+            return self.freeze(env, self.read_place(env, [v.local, v.proj]), depth + 1)
+        if isinstance(v, Agg):
+            return Agg(v.kind, v.name, v.variant, [self.freeze(env, x, depth + 1) for x in v.fields])
+        return v
 
     # ---- nested interpretation
     def call_body(self, fn, args):
         """outcomes [(ret, events, end)] of interpreting crate function `fn` on args"""
         if self.depth >= self.max_depth:
-            return [(TOP, [], "limit")]
+            return [(TOP, [], "limit", dict(self.mstate))]
         a = list(args)
         body = fn.body
         if body.argc != len(a):
@@ -111,10 +125,11 @@ class Interp:
                 a = a[:body.argc]
         sub = Interp(body, self.oracle, a, self.max_visits, self.max_paths, self.facts, self.inline, self.depth + 1, self.max_depth)
         sub.variant_index = self.variant_index
+        sub.init_state = dict(self.mstate)
         outs = []
         for p in sub.run():
-            outs.append((p.ret, [Event("enter", -1, fn.key)] + p.events, p.end))
-        return outs or [(TOP, [], "diverge")]
+            outs.append((p.ret, [Event("enter", -1, fn.key)] + p.events, p.end, p.mstate))
+        return outs or [(TOP, [], "diverge", dict(self.mstate))]
 
     def call_value(self, fv, args):
         """call a function value (closure aggregate or fn item) on args"""
@@ -166,12 +181,12 @@ class Interp:
         if outs is None:
             return None
         res = []
-        for (ret, evs, end) in outs:
+        for (ret, evs, end, ms) in outs:
             if end != "return":
-                res.append((ret, evs, end))
+                res.append((ret, evs, end, ms))
                 continue
             w = {"some": some, "ok": ok, "err": err, "id": lambda x: x}[wrap](ret)
-            res.append((w, evs, end))
+            res.append((w, evs, end, ms))
         return res
 
     # ---- places
@@ -399,11 +414,13 @@ class Interp:
         env0 = {}
         for i, a in enumerate(self.args):
             env0[i + 1] = a
-        stack = [(0, env0, Path(), {})]
+        stack = [(0, env0, Path(), {}, dict(self.init_state))]
         while stack:
             if len(self.paths) > self.max_paths:
                 break
-            bb, env, path, visits = stack.pop()
+            bb, env, path, visits, mstate = stack.pop()
+            self.mstate = mstate
+            path.mstate = mstate
             while True:
                 visits[bb] = visits.get(bb, 0) + 1
                 if visits[bb] > self.max_visits:
@@ -464,7 +481,7 @@ class Interp:
                             p2 = Path()
                             p2.events = list(path.events)
                             p2.blocks = list(path.blocks)
-                            stack.append((b, dict(env), p2, dict(visits)))
+                            stack.append((b, dict(env), p2, dict(visits), dict(mstate)))
                         break
                     nxt = t["otherwise"]
                     for v, b in t["targets"]:
@@ -480,19 +497,21 @@ class Interp:
                     ckey = f.get("resolved", {}).get("key") or f.get("key") or f.get("kind")
                     outs = None
                     if self.facts is not None:
-                        outs = self.combinator(f, args)
+                        fargs = [self.freeze(env, a) for a in args]
+                        outs = self.combinator(f, fargs)
                         if outs is None and f.get("kind") == "def" and self.inline and self.inline(ckey):
                             cf = self.facts.fn_opt(ckey)
                             if cf is not None:
-                                outs = self.call_body(cf, args)
+                                outs = self.call_body(cf, fargs)
                         if outs is None and f.get("kind") == "def" and f.get("name") in ("call_once", "call_mut", "call") and f.get("trait", "").startswith("core::ops::function") and args:
-                            outs = self.call_value(args[0], args[1:])
+                            outs = self.call_value(fargs[0], fargs[1:])
                     if outs is not None:
                         path.events.append(Event("inlined", bb, (ckey, f.get("gargs"), args, None, t)))
-                        for (ret, evs, end) in outs:
+                        for (ret, evs, end, ms) in outs:
                             p2 = Path()
                             p2.events = list(path.events) + list(evs)
                             p2.blocks = list(path.blocks)
+                            p2.mstate = ms
                             if end == "panic":
                                 p2.end = "panic"
                                 self.paths.append(p2)
@@ -503,7 +522,7 @@ class Interp:
                                 continue
                             e2 = dict(env)
                             self.write_place(e2, t["dest"], ret)
-                            stack.append((t["target"], e2, p2, dict(visits)))
+                            stack.append((t["target"], e2, p2, dict(visits), dict(ms)))
                         break
                     res = self.oracle(self, env, f, args, t, bb, path) if self.oracle else TOP
                     path.events.append(Event("call", bb, (ckey, f.get("gargs"), args, res, t)))
